@@ -579,5 +579,19 @@ where
     }
 }
 
+#[cfg(feature = "crux_verif")]
+impl<Effect, Event> Command<Effect, Event> {
+    /// Read-only snapshot of the executor state, does not run any task
+    pub fn verif_stats(&self) -> crate::verif::CommandStats {
+        crate::verif::CommandStats {
+            live_tasks: self.tasks.len(),
+            ready_len: self.ready_queue.len(),
+            spawn_len: self.spawn_queue.len(),
+            effects_len: self.effects.len(),
+            events_len: self.events.len(),
+        }
+    }
+}
+
 #[cfg(test)]
 mod tests;
